@@ -212,10 +212,7 @@ Section SFProofs.
     rewrite app_nil_r. splits; auto; try lia.
     - exists g2. rewrite <- Hg. split; auto. now rewrite Hsc2, Hsc.
     - congruence.
-    - destruct (Hng2 H); lia.
-    - destruct (Hng2 H); lia.
-    - unfold count_g; lia.
-    - destruct (Hng2 H) as [E1 E2]. destruct (sg _ _ _ _ (update_x p t)); lia.
+    - intros Hfd. destruct (Hng2 Hfd) as [E1 E2]. destruct (sg _ _ _ _ (update_x p t)); lia.
     - destruct (sg _ _ _ _ (update_x p t)); lia.
     - destruct (sg _ _ _ _ (update_x p t)); lia.
   Qed.
@@ -238,111 +235,13 @@ Section SFProofs.
       + unfold ret in H3. inversion H3; subst. cnt. lia.
       + apply bind_ok_inv in H3 as (w & q1 & q2 & Q1 & Q2 & ->). unfold SF.call_f, call in Q1. inversion Q1; subst.
         unfold ret in Q2. inversion Q2; subst. cnt. lia. }
-    rewrite app_nil_r. splits; auto; try lia.
-    - exists v2, g2. rewrite <- Hu, <- Hg. rewrite Hx in Hv3. repeat split; auto; now rewrite Hsc3, Hsc2, Hsc.
-    - congruence.
-    - cnt. lia.
-    - destruct (Hng3 H). cnt. lia.
-    - destruct (Hng3 H). cnt. lia.
-    - destruct (Hng3 H). cnt. lia.
-    - destruct (Hng3 H). cnt. unfold count_g. lia.
-    - destruct (Hng3 H) as [E1 E2]. cnt. destruct (sg _ _ _ _ t3); lia.
-    - destruct (sg _ _ _ _ t3); lia.
-    - destruct (sg _ _ _ _ t3); lia.
+    rewrite app_nil_r. cnt. split; [exact HI3|]. split.
+    { exists v2, g2. rewrite <- Hu, <- Hg. rewrite Hx in Hv3. repeat split; auto; now rewrite Hsc3, Hsc2, Hsc. }
+    split; [congruence|]. split; [lia|]. split.
+    { intros Hfd. destruct (Hng3 Hfd) as [E1 E2]. destruct (sg _ _ _ _ t3); lia. }
+    destruct (sg _ _ _ _ t3); lia.
   Qed.
 
-  (* ---- where the user functions are called: every event of a request is at a point satisfying Q, provided
-     the requested point, the cached point and (finite differences) the stencil of a Q-point satisfy Q *)
-  Section Points.
-    Variable Q : P -> Prop.
-    Hypothesis stencil_ok : forall p, Q p -> Forall Q (stencil p).
-    Definition ev_ok (e : ev) : Prop := match e with EvF _ _ _ p _ => Q p | EvG _ _ _ p _ => Q p end.
-
-    Lemma update_x_pts p t : Q p -> Q (sx _ _ _ _ t) -> Q (sx _ _ _ _ (update_x p t)).
-    Proof. intros. unfold SF.update_x. destruct (peqb p _); cbn; auto. Qed.
-
-    Lemma update_fun_pts t r tr : Q (sx _ _ _ _ t) -> update_fun t = (r, tr) ->
-      Forall ev_ok tr /\ (forall v t1, r = Ok (v, t1) -> sx _ _ _ _ t1 = sx _ _ _ _ t).
-    Proof.
-      intros HQ. unfold SF.update_fun. destruct (sf _ _ _ _ t).
-      - unfold ret. intros H; inversion H; subst. split; [constructor|]. intros ? ? E; inversion E; subst; auto.
-      - unfold bind, SF.call_f, call. destruct (uf (sx _ _ _ _ t)) as [w|e|]; cbn; intros H; inversion H; subst.
-        + split; [repeat constructor; exact HQ|]. intros ? ? E; inversion E; subst; auto.
-        + split; [repeat constructor; exact HQ|]. intros; discriminate.
-        + split; [repeat constructor; exact HQ|]. intros; discriminate.
-    Qed.
-
-    Lemma eval_stencil_pts ps r tr : Forall Q ps -> eval_stencil ps = (r, tr) -> Forall ev_ok tr.
-    Proof.
-      revert r tr. induction ps as [|p q IH]; intros r tr HQ; cbn [SF.eval_stencil].
-      - unfold ret. intros H; inversion H; constructor.
-      - inversion HQ; subst. unfold bind at 1, SF.call_f, call.
-        destruct (uf p) as [w|e|]; cbn.
-        + destruct (eval_stencil q) as [r2 t2] eqn:E2. specialize (IH _ _ H2 E2).
-          unfold bind. destruct r2 as [vs|e|]; cbn; intros H; inversion H; subst; constructor; auto;
-            rewrite ?app_nil_r; auto.
-        + intros H; inversion H; subst. repeat constructor; auto.
-        + intros H; inversion H; subst. repeat constructor; auto.
-    Qed.
-
-    Lemma update_grad_pts t r tr : Q (sx _ _ _ _ t) -> update_grad t = (r, tr) ->
-      Forall ev_ok tr /\ (forall v t1, r = Ok (v, t1) -> sx _ _ _ _ t1 = sx _ _ _ _ t).
-    Proof.
-      intros HQ. unfold SF.update_grad. destruct (sg _ _ _ _ t).
-      - unfold ret. intros H; inversion H; subst. split; [constructor|]. intros ? ? E; inversion E; subst; auto.
-      - destruct fdmode.
-        + destruct (update_fun t) as [r1 tr1] eqn:E1. destruct (update_fun_pts _ _ _ HQ E1) as [F1 X1].
-          unfold bind at 1. destruct r1 as [[v t1]|e|]; try (intros H; inversion H; subst; split; [auto|intros; discriminate]).
-          specialize (X1 _ _ eq_refl).
-          destruct (eval_stencil (stencil (sx _ _ _ _ t1))) as [r2 tr2] eqn:E2.
-          assert (F2 : Forall ev_ok tr2). { eapply eval_stencil_pts; eauto. apply stencil_ok. now rewrite X1. }
-          unfold bind. destruct r2 as [vs|e|]; cbn.
-          * destruct (fdest _ v vs); cbn; intros H; inversion H; subst; (split; [rewrite ?app_nil_r; apply Forall_app; auto|]);
-              intros ? ? E; inversion E; subst; cbn; auto.
-          * intros H; inversion H; subst. split; [apply Forall_app; auto|intros; discriminate].
-          * intros H; inversion H; subst. split; [apply Forall_app; auto|intros; discriminate].
-        + unfold bind, SF.call_g, call. destruct (ug (sx _ _ _ _ t)) as [w|e|]; cbn; intros H; inversion H; subst.
-          * split; [repeat constructor; exact HQ|]. intros ? ? E; inversion E; subst; auto.
-          * split; [repeat constructor; exact HQ|]. intros; discriminate.
-          * split; [repeat constructor; exact HQ|]. intros; discriminate.
-    Qed.
-
-    Lemma sf_fun_pts p t r tr : Q p -> Q (sx _ _ _ _ t) -> sf_fun p t = (r, tr) ->
-      Forall ev_ok tr /\ (forall v t1, r = Ok (v, t1) -> Q (sx _ _ _ _ t1)).
-    Proof.
-      intros Hp Ht. pose proof (update_x_pts p t Hp Ht) as H0. unfold SF.sf_fun.
-      destruct (update_fun (update_x p t)) as [r1 tr1] eqn:E1. destruct (update_fun_pts _ _ _ H0 E1) as [F1 X1].
-      unfold bind. destruct r1 as [[v t1]|e|]; cbn; intros H; inversion H; subst.
-      - split; [now rewrite app_nil_r|]. intros ? ? E; inversion E; subst. now rewrite (X1 _ _ eq_refl).
-      - split; auto; intros; discriminate.
-      - split; auto; intros; discriminate.
-    Qed.
-
-    Lemma sf_grad_pts p t r tr : Q p -> Q (sx _ _ _ _ t) -> sf_grad p t = (r, tr) ->
-      Forall ev_ok tr /\ (forall v t1, r = Ok (v, t1) -> Q (sx _ _ _ _ t1)).
-    Proof.
-      intros Hp Ht. pose proof (update_x_pts p t Hp Ht) as H0. unfold SF.sf_grad.
-      destruct (update_grad (update_x p t)) as [r1 tr1] eqn:E1. destruct (update_grad_pts _ _ _ H0 E1) as [F1 X1].
-      unfold bind. destruct r1 as [[v t1]|e|]; cbn; intros H; inversion H; subst.
-      - split; [now rewrite app_nil_r|]. intros ? ? E; inversion E; subst. now rewrite (X1 _ _ eq_refl).
-      - split; auto; intros; discriminate.
-      - split; auto; intros; discriminate.
-    Qed.
-
-    Lemma sf_fun_and_grad_pts p t r tr : Q p -> Q (sx _ _ _ _ t) -> sf_fun_and_grad p t = (r, tr) ->
-      Forall ev_ok tr /\ (forall v g t1, r = Ok (v, g, t1) -> Q (sx _ _ _ _ t1)).
-    Proof.
-      intros Hp Ht. pose proof (update_x_pts p t Hp Ht) as H0. unfold SF.sf_fun_and_grad.
-      destruct (update_fun (update_x p t)) as [r1 tr1] eqn:E1. destruct (update_fun_pts _ _ _ H0 E1) as [F1 X1].
-      unfold bind at 1. destruct r1 as [[v t1]|e|]; try (cbn; intros H; inversion H; subst; split; [auto|intros; discriminate]).
-      specialize (X1 _ _ eq_refl). assert (H1 : Q (sx _ _ _ _ t1)) by now rewrite X1.
-      destruct (update_grad t1) as [r2 tr2] eqn:E2. destruct (update_grad_pts _ _ _ H1 E2) as [F2 X2].
-      unfold bind. destruct r2 as [[g t2]|e|]; cbn; intros H; inversion H; subst.
-      - split; [rewrite app_nil_r; apply Forall_app; auto|]. intros ? ? ? E; inversion E; subst. now rewrite (X2 _ _ eq_refl).
-      - split; [apply Forall_app; auto|intros; discriminate].
-      - split; [apply Forall_app; auto|intros; discriminate].
-    Qed.
-  End Points.
 
   (* what a fresh answer is *)
   Definition fresh (o : SF.op P S) (s : S) (a : SF.ans F G) : Prop :=
